@@ -68,6 +68,20 @@ def rule_map(c: Ctx) -> RuleResult:
         params = [a.arg for a in f.node.args.args]
         st = params[0] if params else "state"
         start = params[1] if len(params) > 1 else None
+        is_rule = f in {reg.func for reg in c.reg.rules["block"]} or f.module.rel == "rules_core/block.py"
+        helper_sites = []
+        if not is_rule:
+            # a private helper of a rule: its start line is the parameter for which every caller passes its own start line,
+            # and `state.line` is judged at the call sites (written before the call, not written again before return True)
+            from ..interproc import actuals
+            st = next((a for a in params if c.tf.scope(f).env.get(a) == "StateBlock"), st)
+            start = None
+            for pn in params:
+                acts = actuals(c, f, pn)
+                if acts and all(isinstance(a, ast.Name) and len(caller.node.args.args) > 1 and a.id == caller.node.args.args[1].arg
+                                for (caller, a, cs) in acts):
+                    start = pn
+                    helper_sites = acts
         kline = f"{st}.line"
         cfg, res, vn = analyse(c, f)
         r.paths += min(cfg.paths_count(), 10**6)
@@ -121,6 +135,25 @@ def rule_map(c: Ctx) -> RuleResult:
                 env = res[n.id]
                 vb = vn.val(b, env, n.id)
                 cur = VN.get(env, kline)
+                if cur == entry(kline) and helper_sites and vb == cur:
+                    # judged in the callers: the cursor must have been advanced before the call and stay put until return True
+                    for (caller, a_, cs_) in helper_sites:
+                        ccfg, cres, cvn = analyse(c, caller)
+                        ckline = f"{caller.node.args.args[0].arg}.line"
+                        crets = _ret_true_nodes(c, caller, ccfg)
+                        for cn in ccfg.owner(cs_.node):
+                            if cres.get(cn.id) is None:
+                                continue
+                            ccur = VN.get(cres[cn.id], ckline)
+                            if ccur == entry(ckline):
+                                bad = f"{caller.short} calls {f.short} before advancing {ckline}: the recorded map end would be the start line"
+                            for rn in crets:
+                                if rn.id in ccfg.reachable_from([cn]) and cres.get(rn.id) is not None and VN.get(cres[rn.id], ckline) != ccur \
+                                        and VN.get(cvn.edge(cn, cres[cn.id], "", ccfg.exit) or {}, ckline) != VN.get(cres[rn.id], ckline):
+                                    bad = f"{ckline} is written again in {caller.short} between the call of {f.short} and `return True`"
+                    if bad:
+                        break
+                    continue
                 if cur == entry(kline):
                     bad = (f"map end `{U(b)}` is taken while {kline} still holds its entry value (the cursor is advanced after the map is "
                            f"written): the map would be empty or stale")
